@@ -27,8 +27,13 @@ MT_SCRIPTS = {"ok": ("a = 1;", 3, 0), "err": ('1 + "x";', 3, 3), "long": (" ".jo
               # a loop without instructions in its body: it ends by a stop/abort only (a 1.5 s time limit is the safety net)
               "emptyloop": ('for "_i" from 0 to 1 step 0 do {};', 3, 0)}
 MT_SCRIPTS["sliced"] = (MT_SCRIPTS["long"][0], 6, 0)      # the same statements scheduled in slices of 6 instructions: requests are polled between the slices
-MT_SLICE = {"sliced": 6}
-MT_LIMIT = {"emptyloop": 3000}
+# every script asleep when the request arrives (the executor polls the requests in its scheduler rounds, too)
+MT_SCRIPTS["sleeping"] = ("sleep 2.5; a = 1;", 3, 0)
+# one long line under a line step: the executor is a line step, the controller stops / aborts it
+MT_SCRIPTS["longline"] = ('for "_i" from 0 to 3000000 do {a = _i}; b = 1;', 3, 0)
+MT_SLICE = {"sliced": 6, "sleeping": 6}
+MT_LIMIT = {"emptyloop": 3000, "sleeping": 4000, "longline": 4000}
+MT_EXEC = {"longline": [["line_step"]]}       # executor call lists of a script (default: start, start+start)
 MT_LAG_MS = 1500       # an executor that is still running this long after the request flag was written did not take it up
 
 
@@ -134,9 +139,9 @@ def run(rep, tier, seed, replay):
         cc_all = [["stop"], ["abort"], ["stop", "abort"], ["abort", "abort"], ["start"], ["abort", "start"]]
         n = 0
         for sname, (text, work, err) in MT_SCRIPTS.items():
-            for ce in ce_all:
+            for ce in MT_EXEC.get(sname, ce_all):
                 for cc in cc_all:
-                    if sname in MT_LIMIT and (ce != ["start"] or cc not in (["stop"], ["abort"])):
+                    if sname in MT_LIMIT and (len(ce) != 1 or cc not in (["stop"], ["abort"])):
                         continue        # (each case there may last until the time limit)
                     scheds = set()
                     # systematic: controller's steps inserted at every position of the executor's run
